@@ -47,9 +47,7 @@ Definition judge_plot1 (case obs : sx) : sx :=
       let lefts := map fst bins in let rights := map snd bins in
       let centres := map (fun b => (fst b + snd b) / qz 2) bins in
       let xs_scale := qmaxl (lefts ++ rights) in
-      let marks_ok :=
-        match (x <- fld "marks" obs ;; d_list (d_list d_q) x) with
-        | Some ms =>
+      let mk := fun (ms : list (list Qc)) (data : list Qc) (scale : Qc) =>
             if String.eqb kind "bar" then
               all2n (fun m p => match m with [x; w; h] => Qceqb x (fst (fst p)) && pnear xs_scale w (snd (fst p) - fst (fst p)) && pnear scale h (snd p) | _ => false end) ms (combine bins data)
             else if String.eqb kind "plotly_bar" then
@@ -63,7 +61,15 @@ Definition judge_plot1 (case obs : sx) : sx :=
               forallb (fun m => match m with [x; y] => existsb (fun p => pnear xs_scale x (fst p) && (pnear scale y (snd p) || pnear scale y 0)) (combine centres data) | _ => false end) ms
             else   (* scatter, line, plotly scatter / line *)
               all2n (fun m p => match m with [x; y] => pnear xs_scale x (fst p) && pnear scale y (snd p) | _ => false end) ms (combine centres data)
-        | None => false end in
+      in
+      let marks_ok :=
+        match (x <- fld "marks" obs ;; d_list (d_list d_q) x) with Some ms => mk ms data scale | None => false end &&
+        (* a second member of a histogram collection drawn into the same axes *)
+        match fld "freq2" obs with
+        | Some f2 => match d_list d_q f2, (x <- fld "marks2" obs ;; d_list (d_list d_q) x) with
+                     | Some freq2, Some ms2 => let data2 := plot_data dens cum freq2 sizes in mk ms2 data2 (qmaxl data2)
+                     | _, _ => false end
+        | None => true end in
       let err_ok :=
         if errs then
           match (x <- fld "errbars" obs ;; d_list (d_list d_q) x) with
